@@ -1,5 +1,5 @@
 //@unit C10_horzjoins
-//@props C10 C04
+//@props C10 C04 C02
 //@desc ClipperBase::ProcessHorzJoins, one join (harness; rings are concrete lists of symbolic shape, sizes bounded). JOIN of two different OutRecs (rings of n1 and n2 vertices): the rings are spliced into ONE consistent ring of n1 + n2 vertices owned by or1 alone - or2 gives its ring up (`pts == nullptr`) BEFORE anything that can allocate (and so can throw std::bad_alloc) runs: MoveSplits is under a contract whose precondition is that the giver no longer claims the ring, otherwise ~ClipperBase would free the ring twice (C10: every object can still be destroyed after an allocation failure); or2 is then owned by or1 (SetOwner(or2, or1) with a polytree, the owner field otherwise). SPLIT (both ends on one ring of n vertices): two consistent rings whose sizes add up to n, each owned by exactly one OutRec (the old one and ONE new one) with every vertex labelled with its owner, no vertex lost or duplicated; with a polytree exactly one split entry (the new OutRec in the old one's list) and the owner chosen by containment. No null or dangling dereference anywhere.
 #include "vf.h"
 //@include engine_types.inc
